@@ -1,6 +1,7 @@
 CONSTANTS
   N = 2
   MaxTasks = 3
+  G = 1
   Dev = {"RunUnderLock"}
 SPECIFICATION Spec
 CHECK_DEADLOCK FALSE
